@@ -3,6 +3,7 @@
 Mixins to extend the functionality of the core model class.
 """
 
+import copy as copy_
 from typing import Any, Hashable, List, Optional, Sequence, Union
 
 import numpy as np
@@ -130,7 +131,7 @@ class PandasIndexFeaturesMixin:
                     value = ''
 
             reindexed[name] = (
-                Series(self[name], index=self.span)
+                Series(copy_.deepcopy(self[name]), index=self.span)
                 .reindex(
                     index=span,
                     method=fill_method,
